@@ -532,6 +532,9 @@ impl Writer {
         if result.is_err() {
             // Output files up to `merge_fileid` may exist and the active file may be gone. New
             // entries must never go to a file with a lower ID than the ones that were left behind.
+            // The hint file of the output that was being written may lack entries whose data
+            // is already in use, without it that output is recovered from its data file.
+            let _ = fs::remove_file(utils::hintfile_name(&self.ctx.conf.path, merge_fileid));
             self.new_active_datafile(merge_fileid + 1)?;
         }
         result
